@@ -407,6 +407,7 @@ def ode2c(
         verbose=verbose,
         stiff_states=stiff_states,
         delta=delta,
+        format=format,
     )
 
 
